@@ -100,6 +100,7 @@ GenOf(cc, t, j) ==
                ELSE [fit |-> ((3 * t + 5 * j) % Len(FTable)) + 1, win |-> c[1], gen |-> j, eo |-> ((t + j) % Len(FTable)) + 1,
                      err |-> ((2 * t + j) % Len(FTable)) + 1, g |-> WithId(c[3], 10 * t + j)]]
 ExpOf(sk) == [id |-> Len(sk), name |-> "exp", trials |-> [t \in DOMAIN sk |-> [id |-> t - 1, gens |-> [j \in DOMAIN sk[t] |-> GenOf(sk[t][j], t, j)]]]]
+Other(sk) == Reverse(sk) \o << <<101>> >>        \* another experiment with one more (solved) trial
 SeqsUpTo(Elems, n) == UNION {[1 .. m -> Elems] : m \in 0 .. n}
 
 Dummy == [none |-> TRUE]
@@ -120,7 +121,7 @@ CaseOf ==
       [] mode = "pop" -> [kind |-> "pop", gs |-> x, lines |-> Render(PopLines(x))]
       [] mode = "exp" ->
            LET e == ExpOf(x) IN
-           [kind |-> "exp", sk |-> x, e |-> e,
+           [kind |-> "exp", sk |-> x, e |-> e, other |-> ExpOf(Other(x)),
             stream |-> Map(ExpStream(e), LAMBDA t : IF t.k = "bytes" THEN [k |-> "bytes", v |-> Render(t.v)] ELSE t)]
 (* with -simulate: keep growing most of the time, so that large genomes are sampled *)
 Coin == RandomElement(1 .. 4 + 0 * Len(g.nodes)) = 1          \* (state-level on purpose: re-drawn at every evaluation)
@@ -151,6 +152,13 @@ Population == /\ mode = "genome" /\ g.genes # <<>> => PopLaw(<<g, [g EXCEPT !.id
               /\ mode = "pop" => PopLaw(x)
 FastModel == mode = "genome" /\ phase \in {"genes", "mods"} => FastLaw(FastOf(g, "net"))
 ExperimentFile == mode = "exp" => ExpLaw(ExpOf(x))
+(* reading into a used value: the target held nothing, a smaller, the same or another (larger) experiment whose statistics were computed *)
+Priors(sk) == {FreshExp, Held(ExpOf(sk), TRUE), Held(ExpOf(Other(sk)), TRUE)}
+              \cup (IF sk = <<>> THEN {} ELSE {Held(ExpOf(SubSeq(sk, 1, Len(sk) - 1)), TRUE)})
+ReadIntoUsed == /\ mode = "exp" => \A prior \in Priors(x) : ReadIntoLaw(prior, ExpOf(x), FALSE)
+                /\ mode = "org" => OrgIntoLaw([fit |-> 2, gen |-> 77, hf |-> 3, pcc |-> ~x.pcc, g |-> PoolG(1), phenotype |-> "of the old genome"], x)
+(* the law is about something: decoding in place into used trials breaks it *)
+ASSUME ~ReadIntoLaw(Held(ExpOf(<< <<101>> >>), TRUE), ExpOf(<< <<22, 101>> >>), TRUE)
 (* the writer model only produces tokens of the four lexical types the reader model reads *)
 TokensTyped == mode = "genome" => \A ln \in Rng(PlainLines(g)) : \A t \in Rng(ln) : t.k \in {"i", "f", "b", "s"}
 =============================================================================
